@@ -18,6 +18,14 @@ func TestStmtInputs(t *testing.T) {
 			t.Logf("snippet %s rejected: %s", sn.name, p.class)
 		}
 	}
+	for _, sn := range spellSnippets {
+		if _, ok := exprgen.Tokenize(sn.src); !ok {
+			t.Errorf("snippet %s is not tokenizable", sn.name)
+		}
+		if p := parse(sn.src); !p.ok {
+			t.Errorf("snippet %s rejected: %s", sn.name, p.class)
+		}
+	}
 	for name, src := range util.Corpus() {
 		if _, ok := exprgen.Tokenize(src); !ok {
 			t.Logf("corpus %s is not tokenizable", name)
